@@ -392,6 +392,54 @@ def custom_operation_probe(g, targets, universe, cols, stats):
         env.close()
 
 
+def equal_operations_across_engines(targets, universe, cols, stats):
+    """Operations that compare equal are not interchangeable: expression equality ignores which engines support a function.
+    The same pair of selections / sorts is merged first in one engine (function restricted to that engine's kind), then
+    the equal pair restricted to the other kind in the other engine: each pair is individually valid, so each merge must
+    succeed and evaluate to the rows of the two operations in sequence."""
+    from lsst.daf.relation import SortTerm
+
+    from vf.core.sqlh import compile_and_run
+
+    a_, b_, c_ = cols
+    rows = targets[0]
+    leaves = (
+        ("L0", cols, rows, 0, "data", (len(rows), len(rows)), "plain"),
+        ("L1", cols, rows, 1, "data", (len(rows), len(rows)), "plain"),
+    )
+    env = Env(leaves)
+    try:
+        for lit, order in ((-2, (0, 1)), (-1, (1, 0))):
+            p1 = ("ge", ("ref", b_), ("lit", 1))
+            for eng in order:
+                kind = "sql" if eng == 0 else "it"
+                p2 = ("gt", ("rneg", kind, ("ref", a_)), ("lit", lit))
+                term = (("rneg", kind, ("ref", c_)), True)
+                node_sel = ("sel", ("sel", ("leaf", eng), p1), p2)
+                node_sort = ("sort", ("sort", ("leaf", eng), ((("ref", b_), True),)), (term,))
+                for node in (node_sel, node_sort):
+                    what = f"{fmt(node, leaves)} in engine E{eng}"
+                    try:
+                        rel = env.leafrels[eng]
+                        if node[0] == "sel":
+                            rel = rel.with_rows_satisfying(lib_p(p1)).with_rows_satisfying(lib_p(p2))
+                        else:
+                            rel = rel.sorted([SortTerm(lib_e(("ref", b_)), True)]).sorted([SortTerm(lib_e(term[0]), True)])
+                    except Exception as e:
+                        raise Violation("merge-raised", f"merging two individually valid operations raised {type(e).__name__}: {e}; {what}", exc=e)
+                    expected = ev_list(node, leaves)
+                    try:
+                        got = env.run_iter(rel) if eng else compile_and_run(env, rel)[0][0]
+                    except Exception as e:
+                        raise Violation("execute-raised", f"{type(e).__name__}: {e}; tree {rel}; {what}", exc=e)
+                    same = got == expected if eng else sorted(map(repr, got)) == sorted(map(repr, expected))
+                    if not same:
+                        raise Violation("exec-changed-rows", f"{what}: tree {rel}: expected {show_rows(expected)} executed {show_rows(got)}")
+                    stats.c["equal-operations-across-engines"] += 1
+    finally:
+        env.close()
+
+
 # ---------------------------------------------------------------- exhaustive slice space
 
 
@@ -426,6 +474,7 @@ def exhaustive(tier, stats, shard, nshards, run):
     idx = 0
     if shard == 0:
         custom_operation_probe(g, targets, UNIVERSE, (A, B, C), stats)
+        equal_operations_across_engines(targets, UNIVERSE, (A, B, C), stats)
     for rows in targets:
         leaf = ("L0", (A, B, C), rows, 1, "data", (len(rows), len(rows)), "plain")
         for up in g:
